@@ -278,6 +278,15 @@ def depth_suspects():
         out.append(("depth:typed-lists x%d" % min(k, 24), "x: " + "[" * min(k, 24) + "int" + "...]" * min(k, 24) + " = " + "[" * min(k, 24) + "7" + "]" * min(k, 24) + "\nprint 1\n"))
         out.append(("depth:list-types x%d" % min(k, 24), "x: " + "[" * min(k, 24) + "int" + "...]" * min(k, 24) + " = []\nprint 1\n"))
         out.append(("depth:optional-lists x%d" % k, "n: int? = 1\nconst x = " + "[" * k + "n" + "]" * k + "\nprint 1\n"))
+        kk = min(k, 40)
+        ty = "[" * kk + "int" + "...]" * kk
+        fpre = "f = fn(n: int) -> int { return n }\n"
+        # a type MISMATCH at the bottom of nested list types: the diagnostic must come as promptly as the matching twin compiles
+        out.append(("depth:mismatched-list-declaration x%d" % kk, fpre + "y: " + ty + " = " + "[" * kk + "f(1), \"a\"" + "]" * kk + "\n"))
+        out.append(("depth:mismatched-list-argument x%d" % kk, fpre + "g = fn(a: " + ty + ") {}\ng(" + "[" * kk + "f(1), \"a\"" + "]" * kk + ")\n"))
+        out.append(("depth:mismatched-list-reassignment x%d" % kk, fpre + "y: " + ty + " = " + "[" * kk + "f(1), f(2)" + "]" * kk + "\ny = " + "[" * kk + "f(1), \"a\"" + "]" * kk + "\n"))
+        out.append(("depth:mismatched-list-return x%d" % kk, fpre + "g = fn() -> " + ty + " {\n  return " + "[" * kk + "f(1), \"a\"" + "]" * kk + "\n}\n"))
+        out.append(("depth:mismatched-list-equality x%d" % kk, fpre + "y: " + ty + " = " + "[" * kk + "f(1), f(2)" + "]" * kk + "\nz: " + "[" * kk + "str" + "...]" * kk + " = " + "[" * kk + "\"a\"" + "]" * kk + "\nprint y == z\n"))
         out.append(("depth:blocks x%d" % k, "v = 1\n" + "if v == 1 {\n" * k + "print v\n" + "}\n" * k))
         out.append(("depth:not x%d" % k, "b = true\nx = " + "!(" * k + "b" + ")" * k + "\nprint x\n"))
     return out
@@ -327,12 +336,98 @@ def backtracking_suspects():
     return out
 
 
+def alias_index_suspects():
+    """WELL-TYPED (or nearly) programs that reach the code generator through a TYPE ALIAS: `type A <container>` for open / fixed lists,
+    str and maps of every key kind, the alias direct or through a second alias (the container itself as control); a value of that type
+    reached as variable, parameter or object field; indexed with a CONSTANT of every kind (int, negative, folded, huge, bigint, byte,
+    float, folded float, str, bool) and with a variable of the key's kind; read, written, compound-assigned.  One statement per file:
+    a diagnostic for one would keep the others from code generation."""
+    conts = [("list-int", "[int...]", "[1, 2, 3]", "7", "1"), ("list-str", "[str...]", '["a", "b", "c"]', '"z"', "1"),
+             ("list-float", "[float...]", "[0.5, 1.5, 2.5]", "7.5", "1"), ("fixed-list", "[int, str]", '[1, "a"]', "7", "0"), ("str", "str", '"abc"', '"z"', "1")]
+    keys = [("int", "1", "2"), ("bigint", "B1", "B2"), ("byte", "0b1", "0b10"), ("float", "0.5", "1.5"), ("str", '"k"', '"j"'), ("bool", "true", "false")]
+    for kk, k1, k2 in keys:
+        # an alias is a compound-atomic rule: the type it names is written without blanks
+        conts.append(("map-%s-key" % kk, "map[%s,str]" % kk, 'map[%s, str]{%s: "x", %s: "y"}' % (kk, k1, k2), '"z"', k2))
+    consts = [("int", "1"), ("zero", "0"), ("negative", "-1"), ("folded-int", "1 + 0"), ("huge-int", "99999999999"), ("bigint", "B1"), ("byte", "0b1"),
+              ("float", "1.5"), ("folded-float", "1.0 + 0.5"), ("str", '"k"'), ("bool", "true"), ("variable", "key")]
+    out = []
+    for cname, ty, init, val, keyinit in conts:
+        for depth, (decl, tname) in enumerate([("", ty), ("type A %s\n" % ty, "A"), ("type Inner %s\ntype A Inner\n" % ty, "A")]):
+            for kname, k in consts:
+                pre = decl + ("key = %s\n" % keyinit if kname == "variable" else "")
+                for oname, stmt in (("read", "print x[%s]\n" % k), ("write", "x[%s] = %s\nprint x\n" % (k, val)), ("compound", "x[%s] += %s\nprint x\n" % (k, val))):
+                    tag = "alias-index:%s:%s:%s-constant:%s" % (cname, ("direct", "alias", "alias-of-alias")[depth], kname, oname)
+                    out.append((tag + ":variable", pre + "x: %s = %s\n%s" % (tname, init, stmt)))
+                    out.append((tag + ":parameter", pre + "f = fn(x: %s) {\n  %s}\nf(%s)\n" % (tname, stmt.replace("\n", "\n  ", stmt.count("\n") - 1), init)))
+                    if depth:
+                        field = stmt.replace("x[", "t[").replace("print x", "print t")
+                        out.append((tag + ":field", pre + "class K {\n  x: %s\n  constructor(self) {\n    self.x = %s\n  }\n}\nk = K()\nt = k.x\n%s" % (tname, init, field)))
+    return out
+
+
+def same_name_suspects():
+    """ONE name declared in TWO scopes of one file - a class (its constructor and methods are functions named after it), a function,
+    a type alias, a variable, and mixed pairs - in every arrangement of the two scopes: module + function (called or never called),
+    two functions, the branches of an if, two blocks, two loop bodies, function in function, a method / constructor body, block in
+    function.  Nothing here is more than people write when they keep an old helper around."""
+    def decl(kind, n, tag):
+        if kind == "class":
+            return ("class %s {\n  n: int\n  constructor(self, start: int) {\n    self.n = start\n  }\n  fn bump(self) -> int {\n    self.n = self.n + %d\n    return self.n\n  }\n}\n" % (n, tag),
+                    "c%d = %s(0)\nprint c%d.bump()\n" % (tag, n, tag))
+        if kind == "bare-class":
+            return "class %s {\n  fn tag(self) -> int {\n    return %d\n  }\n}\n" % (n, tag), "t%d = %s()\nprint t%d.tag()\n" % (tag, n, tag)
+        if kind == "function":
+            return "%s = fn() -> int {\n  return %d\n}\n" % (n, tag), "print %s()\n" % n
+        if kind == "type":
+            return "type %s %s\n" % (n, "int" if tag == 1 else "str"), "v%d: %s = %s\nprint v%d\n" % (tag, n, "5" if tag == 1 else '"s"', tag)
+        return "%s = %d\n" % (n, tag), "print %s\n" % n
+
+    def ind(t, k=1):
+        return "".join("  " * k + l + "\n" for l in t.splitlines())
+
+    def arrangements(a, b):
+        A, B = a[0] + a[1], b[0] + b[1]
+        return [
+            ("module + function never called", A + "legacy = fn() -> int {\n" + ind(B) + "  return 0\n}\n" + a[1]),
+            ("module + function called", A + "helper = fn() -> int {\n" + ind(B) + "  return 0\n}\nprint helper()\n" + a[1]),
+            ("function first, module after", "helper = fn() -> int {\n" + ind(B) + "  return 0\n}\n" + A + "print helper()\n"),
+            ("two functions", "one = fn() -> int {\n" + ind(A) + "  return 1\n}\ntwo = fn() -> int {\n" + ind(B) + "  return 2\n}\nprint one()\nprint two()\n"),
+            ("if and else branch", "flag = true\nif flag {\n" + ind(A) + "} else {\n" + ind(B) + "}\n"),
+            ("two blocks", "if true {\n" + ind(A) + "}\nif true {\n" + ind(B) + "}\n"),
+            ("two loop bodies", "w = 0\nwhile w < 1 {\n" + ind(A) + "  w = w + 1\n}\nfrom 0 to 1 {\n" + ind(B) + "}\n"),
+            ("function in function", "outer = fn() -> int {\n" + ind(A) + "  inner = fn() -> int {\n" + ind(B, 2) + "    return 2\n  }\n  return inner()\n}\nprint outer()\n"),
+            ("module + block", A + "if true {\n" + ind(B) + "}\n" + a[1]),
+            ("module + method body", A + "class Other {\n  fn m(self) -> int {\n" + ind(B, 2) + "    return 0\n  }\n}\no = Other()\nprint o.m()\n" + a[1]),
+            ("module + constructor body", A + "class Other {\n  constructor(self) {\n" + ind(B, 2) + "  }\n}\no = Other()\n" + a[1]),
+            ("module + block in function", A + "deep = fn() -> int {\n  if true {\n" + ind(B, 2) + "  }\n  return 0\n}\nprint deep()\n" + a[1]),
+            ("three scopes", A + "mid = fn() -> int {\n" + ind(B) + "  if true {\n" + ind(A, 2) + "  }\n  return 0\n}\nprint mid()\n"),
+        ]
+    kinds = ["class", "bare-class", "function", "type", "variable"]
+    out = []
+    for k1 in kinds:
+        for k2 in kinds:
+            arr = arrangements(decl(k1, "Counter", 1), decl(k2, "Counter", 2))
+            for i, (aname, text) in enumerate(arr):
+                if k1 == k2 or i in (0, 1, 3, 8):
+                    out.append(("same-name:%s then %s:%s" % (k1, k2, aname), text))
+    # the same name in two FILES is two names
+    for k in ("class", "function"):
+        a, b = decl(k, "Counter", 1), decl(k, "Counter", 2)
+        out.append(("same-name:%s:entry and imported module" % k, {"main.ms": "import lib\n" + a[0] + a[1] + "print lib.go()\n",
+                                                                  "lib.ms": b[0] + "export go: fn() -> int = fn() -> int {\n" + ind(b[1].replace("print ", "x = ").splitlines()[0]) + "  return 2\n}\n"}))
+    return out
+
+
 def build_inputs(ctx, gr, n_gen, n_mut, n_mutgen, n_grid=0):
     """-> list of cases {name, stream, files, entry}"""
     rng = ctx.rng
     cases = []
     for name, text in suspects() + breadth_suspects() + backtracking_suspects() + depth_suspects() + constant_arith_suspects() + placement_suspects():
         cases.append({"name": name, "stream": "suspect", "files": {"main.ms": text}, "entry": "main.ms"})
+    # round 6: programs that TYPE-CHECK and so reach the code generator (streams of their own: the share that compiles is in by_stream)
+    for stream, fam in (("alias-index", alias_index_suspects()), ("same-name", same_name_suspects())):
+        for name, text in fam:
+            cases.append({"name": name, "stream": stream, "files": dict(text) if isinstance(text, dict) else {"main.ms": text}, "entry": "main.ms"})
     corpus = programs.corpus_from_tests() + programs.corpus_from_examples()
     for p in corpus:
         cases.append({"name": p["name"], "stream": "corpus", "files": dict(p["files"]), "entry": p["entry"]})
@@ -439,7 +534,7 @@ def minimise_failure(ctx, binary, base, key, c, rc, err):
     """delta-debug the entry file (lines, then tokens) keeping the same raw failure key"""
     files = dict(c["files"])
     entry = c["entry"]
-    if c["stream"] == "suspect":
+    if c["stream"] in ("suspect", "alias-index", "same-name"):
         return files, entry, rc, err, None          # hand-written, already minimal
     # try to drop the other files of the project first
     if len(files) > 1:
